@@ -660,8 +660,10 @@ func (sema *ExprSemanticsChecker) checkArrayDeref(n *ArrayDerefNode) ExprType {
 	case AnyType:
 		return &ArrayType{AnyType{}, true}
 	case *ArrayType:
-		ty.Deref = true
-		return ty
+		// Do not set the flag in place since the type may be shared. For example, the type of
+		// `matrix.x` lives in the matrix object which is reused for all expressions in the job, so
+		// `matrix.x.*.y` would change how `matrix.x.y` is checked afterwards
+		return &ArrayType{ty.Elem, true}
 	case *ObjectType:
 		// Object filtering is available for objects, not only arrays (#66)
 
